@@ -57,6 +57,15 @@ CHECKS.update({
         "DESIGN.md §2 C02",
     ),
 })
+CHECKS.update({
+    "C10": (
+        "exploration",
+        "Hypothesis generated edge-valued redshift arrays; three consumers (trees, measurement weight sums, histogram) vs explicit interval-membership oracle",
+        "Generated-input search with redshifts drawn mostly from the bin edges themselves, their floating-point neighbours and values outside the binning, both closed sides, empty bins/patches; all three consumers must equal an explicit interval test (hence each other).",
+        "edges taken from the library (C15 checks them); small catalogs",
+        "DESIGN.md §2 C10",
+    ),
+})
 NOT_YET = {}
 
 props = [json.loads(l) for l in (VERIF / "properties.jsonl").read_text().splitlines() if l.strip()]
